@@ -428,7 +428,9 @@ def add_output_head(spec, rng):
     spec = copy.deepcopy(spec)
     nodes = spec['nodes']
     sh = shapes(spec)
-    cands = [i for i, nd in enumerate(nodes) if len(sh[i]) >= 2 and nd['k'] not in ('in', 'pad1d') and i not in spec['out']]
+    # not on a layer that is fused with a following BatchNorm (PIT rejects a fused layer with several users by design)
+    bn_fused = {nd['src'] for nd in nodes if nd['k'] in ('bn1d', 'bn2d')}
+    cands = [i for i, nd in enumerate(nodes) if len(sh[i]) >= 2 and nd['k'] not in ('in', 'pad1d') and i not in spec['out'] and i not in bn_fused]
     if not cands:
         return spec
     i = rng.choice(cands)
